@@ -18,7 +18,10 @@ use std::{
 };
 
 use itertools::Itertools;
+#[cfg(not(foyer_verif))]
 use parking_lot::RwLock;
+#[cfg(foyer_verif)]
+use foyer_common::verif::sync::{RwLock};
 
 use crate::engine::block::{manager::BlockId, serde::Sequence};
 
